@@ -18,6 +18,17 @@ pub fn check(v: &View, vd: &mut Verdict) {
         let Some(OpRes::Bool(b)) = o.res else { continue };
         let says_stopped = if o.what == OpWhat::QueryStopped { b } else { !b };
         let awaited = awaited_before(v, a, o.begin);
+        // the termination is only announced once the stopped() hook has finished
+        if says_stopped && v.actors[a].graceful {
+            if let Some(x) = v.actors[a].stopped_exit {
+                if o.end.is_some_and(|e| e < x) {
+                    vd.fail(
+                        format!("C14/stopped_before_hook_finished/{:?}/via={:?}", o.what, o.via.unwrap()),
+                        format!("actor {a}: {:?} on a {:?} at {} says it has stopped, but its stopped() callback only finished at {x}", o.what, o.via, o.begin),
+                    );
+                }
+            }
+        }
         if o.begin > v.dead_from(a) {
             if !awaited {
                 nt = true;
